@@ -58,3 +58,53 @@ pub proof fn rule_iter_exit(body: CodeBlock, p0: PState, pa: PState, t: Seq<Oper
 pub proof fn rule_iter_repeat(body: CodeBlock, p0: PState, pa: PState, p1: PState, t: Seq<Operation>, t2: Seq<Operation>)
     requires exec_rel(body, p0, pa, t), pa.s[0].val() == 1, iter_rel(body, drop_tick(pa), p1, t2)
     ensures iter_rel(body, p0, p1, t + seq![Operation::Repeat] + t2) {}
+
+// ---- calls, syscalls and dynamic execution (C07) ------------------------------------------------
+// Source: docs/src/user_docs/assembly/execution_contexts.md, code_organization.md (dynexec/dyncall),
+// docs/src/design/decoder/main.md (CALL / SYSCALL / DYN blocks).
+/// the static environment of a run: the code-block table (MAST roots of every call / procref
+/// target) and the kernel's procedure set.  It is arbitrary but fixed: `the_env()` is uninterpreted,
+/// the executors are proved for a table and kernel equal to it, hence for every environment.
+pub struct Env { pub cbt: spec_fn(Digest) -> Option<CodeBlock>, pub kernel: spec_fn(Digest) -> bool }
+pub uninterp spec fn the_env() -> Env;
+/// T4: a digest is four field elements; `digest_of_word` is the conversion Word -> Digest
+pub uninterp spec fn digest_of_word(w: Seq<Felt>) -> Digest;
+/// the word on top of the stack (element 3 of a word is on top)
+pub open spec fn top_word(s: Seq<Felt>) -> Seq<Felt> { seq![s[3], s[2], s[1], s[0]] }
+/// state in which the body of a `call` starts: a fresh context (id = the clock value of the CALL
+/// row + 1, never used before) that sees only the top 16 elements, fmp = 2^30, `caller` = the callee
+pub open spec fn call_entry(p0: PState, fn_hash: Seq<Felt>) -> PState {
+    PState { s: p0.s.take(16), g: Regs { clk: p0.g.clk + 1, fmp: felt_of(0x4000_0000), ctx: p0.g.clk + 1, in_syscall: false, fn_hash: fn_hash }, m: p0.m }
+}
+/// state in which a kernel procedure starts: root context, locals region at 2^31, `caller` value
+/// (hash of the calling procedure) unchanged
+pub open spec fn syscall_entry(p0: PState) -> PState {
+    PState { s: p0.s.take(16), g: Regs { clk: p0.g.clk + 1, fmp: felt_of(0x8000_0000), ctx: 0, in_syscall: true, fn_hash: p0.g.fn_hash }, m: p0.m }
+}
+/// state after the END row of a call / syscall whose body ended in `pc` with depth exactly 16:
+/// the caller's deeper stack, fmp, context and fn_hash are exactly as before the call
+pub open spec fn call_return(p0: PState, pc: PState) -> PState {
+    PState { s: pc.s + p0.s.skip(16), g: Regs { clk: pc.g.clk + 1, fmp: p0.g.fmp, ctx: p0.g.ctx, in_syscall: false, fn_hash: p0.g.fn_hash }, m: pc.m }
+}
+/// the block a CALL / SYSCALL node runs: the dynamic-execution block for `dyncall`, otherwise the
+/// table entry of its target
+pub open spec fn callee_of(c: Call) -> Option<CodeBlock> {
+    if c.fn_hash == dyn_constant_spec() { Some(CodeBlock::Dyn(Dyn {})) } else { (the_env().cbt)(c.fn_hash) }
+}
+#[verifier::external_body]
+pub proof fn rule_call(c: Call, body: CodeBlock, p0: PState, pc: PState, t: Seq<Operation>)
+    requires !c.is_syscall, !p0.g.in_syscall, callee_of(c) == Some(body),
+        exec_rel(body, call_entry(p0, c.fn_hash.word()@), pc, t), pc.s.len() == 16
+    ensures exec_rel(CodeBlock::Call(c), p0, call_return(p0, pc), seq![Operation::Call] + t + seq![Operation::End]) {}
+/// a syscall reaches kernel procedures only
+#[verifier::external_body]
+pub proof fn rule_syscall(c: Call, body: CodeBlock, p0: PState, pc: PState, t: Seq<Operation>)
+    requires c.is_syscall, !p0.g.in_syscall, (the_env().kernel)(c.fn_hash), callee_of(c) == Some(body),
+        exec_rel(body, syscall_entry(p0), pc, t), pc.s.len() == 16
+    ensures exec_rel(CodeBlock::Call(c), p0, call_return(p0, pc), seq![Operation::SysCall] + t + seq![Operation::End]) {}
+/// DYN runs the table entry whose root is the word on top of the stack, in the current context;
+/// the stack itself is not changed by the DYN / END rows
+#[verifier::external_body]
+pub proof fn rule_dyn(d: Dyn, body: CodeBlock, p0: PState, p1: PState, t: Seq<Operation>)
+    requires (the_env().cbt)(digest_of_word(top_word(p0.s))) == Some(body), exec_rel(body, tick(p0), p1, t)
+    ensures exec_rel(CodeBlock::Dyn(d), p0, tick(p1), seq![Operation::Dyn] + t + seq![Operation::End]) {}
